@@ -86,6 +86,17 @@ def check(ix, rep):
     from sa.rules import nodename
     nn = nodename.check(ix, rep, 'online-key')
     rep.floor('name obligations (parts of the printed name, skeletons)', nn, 120)
+    # the samples computed with are the samples supplied (no conversion of the elements on entry)
+    from sa.rules import truthy as _te
+    _ne = 0
+    for _m in M.standard_monitors(ix):
+        if _m.kind == 'discrete-online':
+            _de = ix.resolve_method(_m.cls, 'set_variable_to_ast_from_dataset')
+            if _de is None:
+                raise AnalysisError('set_variable_to_ast_from_dataset of %s vanished' % _m.kind)
+            rep.analysed(_de)
+            _ne += _te.check_entry_verbatim(ix, rep, _de, _m.kind)
+    rep.floor('data-entry stores', _ne, 1)
     # pastify() of a past formula is the identity only if the bounds it rebuilds are the written ones: each bound converted with its own unit
     # (else the other bound's, else the default) by the normalisers the pastifier and the horizon use
     from sa.rules import units as _u2, unitflow as _uf2
